@@ -70,11 +70,58 @@ func main() {
 	cf.Checks = []lib.Check{{Name: "tie", Kind: "tie", Fn: "c22_tie"}, {Name: "spec", Kind: "spec", Fn: "c22_spec"}}
 	cf.Side.Rule = "random valid-leaning changelogs (0..13 events, arity 1..2, duplicates, retractions, late and zero event times, monotone watermarks) " +
 		"through stream.InternallyConsistentOutputStreamWrapper; non-trivial = at least one retraction, one watermark and one record above a watermark when it is forwarded; distinct by full case text"
-	n := f.Cases(400, 4000)
-	for i := 0; i < n; i++ {
+	n := f.Cases(400, 3000)
+	// corpus first: the minimised inputs on which the pinned tree failed, then (thorough tier) every
+	// script up to length 5 over a 7-event alphabet, then the random stream.
+	va, vb := []octosql.Value{octosql.NewInt(1)}, []octosql.Value{octosql.NewInt(2)}
+	ins := func(v []octosql.Value, t int64) lib.Event { return lib.Event{Rec: execution.NewRecord(v, false, lib.T(t))} }
+	del := func(v []octosql.Value, t int64) lib.Event { return lib.Event{Rec: execution.NewRecord(v, true, lib.T(t))} }
+	wm := func(t int64) lib.Event { return lib.Event{IsWM: true, WM: lib.T(t)} }
+	fixed := [][]lib.Event{
+		{ins(va, 5), wm(3)},
+		{ins(va, 1), ins(va, 1), del(va, 1), wm(3)},
+		{ins(va, 1), del(va, 5), wm(3), wm(6)},
+		{ins(va, 4), ins(va, 0), del(va, 1)},
+		{ins(va, 3), wm(3), ins(vb, 3), wm(3), del(va, 4)},
+	}
+	if f.Tier == "thorough" {
+		alphabet := []lib.Event{ins(va, 1), ins(va, 3), del(va, 1), del(va, 3), ins(vb, 2), wm(2), wm(3)}
+		var rec func(prefix []lib.Event, depth int)
+		rec = func(prefix []lib.Event, depth int) {
+			if len(prefix) > 0 {
+				fixed = append(fixed, append([]lib.Event(nil), prefix...))
+			}
+			if depth == 0 {
+				return
+			}
+			for _, e := range alphabet {
+				// keep watermarks non-decreasing (the wrapper's stated input condition)
+				if e.IsWM {
+					okWM := true
+					for _, p := range prefix {
+						if p.IsWM && p.WM.After(e.WM) {
+							okWM = false
+						}
+					}
+					if !okWM {
+						continue
+					}
+				}
+				rec(append(prefix, e), depth-1)
+			}
+		}
+		rec(nil, 5)
+	}
+	cf.Side.Distribution["fixed_and_exhaustive_scripts"] = len(fixed)
+	for i := 0; i < n+len(fixed); i++ {
 		r := rng.Fork()
 		arity := 1 + r.Intn(2)
-		script := genScript(r, arity)
+		var script []lib.Event
+		if i < len(fixed) {
+			arity, script = 1, fixed[i]
+		} else {
+			script = genScript(r, arity)
+		}
 		out, err, p := lib.RunNode(&stream.InternallyConsistentOutputStreamWrapper{Source: &lib.ScriptSource{Events: script}})
 		hasRetr, hasWM, hasLater := false, false, false
 		lastWM := int64(-1)
